@@ -390,6 +390,16 @@ class G:
         r_ = self.expr(t, d - 1)
         if self.r.random() < 0.15:
             r_ = ("null",)
+        elif self.r.random() < 0.12:
+            # the same fields with the same values in another order: tuples are ordered, so these are NOT equal
+            names = self.r.sample([n for n in FIELD_POOL if gen.BAREWORD_RE.match(n) and n not in ("true", "false")], self.r.randint(2, 3))
+            vals = [self.literal(self.rand_simple()) for _ in names]
+            flds = list(zip(names, vals))
+            perm = flds[1:] + flds[:1]
+            self.use("eq-permuted-tuple")
+            l, r_ = ("tuple", flds), ("tuple", perm)
+            if self.r.random() < 0.3:
+                return ("bin", "in", l, ("list", [r_]))
         return ("bin", op, l, r_)
 
     def mk_logic(self, T, d):
